@@ -10,6 +10,8 @@ func init() {
 		Fixtures:    []string{"n"},
 		Run:         runC17,
 		SelfTest: []Mutation{
+			{Name: "ridge penalty added to a column instead of the diagonal", File: "numerical/least_squares.go",
+				Old: "\tleftSide[0] += lambda\n\tleftSide[4] += lambda\n\tleftSide[8] += lambda\n", New: "\tfor i := 0; i < 3; i++ {\n\t\tleftSide[i*3] += lambda\n\t}\n", Rule: "DIAGADD", Expect: "LeastSquaresReg3"},
 			{Name: "finer search result returned unconditionally (defect repaired)", File: "numerical/dense_search.go",
 				Old: "\tif subSolution, subValue := l.maximize(newMin, newMax, f, recursions-1); subValue > value {\n\t\treturn subSolution, subValue\n\t}\n\treturn solution, value", New: "\treturn l.maximize(newMin, newMax, f, recursions-1)", Rule: "BEST.RET", Expect: "LineSearch"},
 			{Name: "grid search keeps the last sample", File: "numerical/dense_search.go",
@@ -57,6 +59,9 @@ func runC17(c *Ctx) {
 		return false
 	})
 	c.floor("UNIFORM", 15)
+	// ridge terms and shifts go on the diagonal
+	c.runDiagAdd("DIAGADD", pkgs, nil)
+	c.floor("DIAGADD", 0)
 	c.runPascal("PASCAL")
 	c.floor("PASCAL", 10)
 }
